@@ -1297,6 +1297,40 @@ func (c *Ctx) iteratorDiscipline(rule string, fi *load.FuncInfo) int {
 				"Key()/Value() is evaluated on a path where the last positioning call reported that there is no entry (an empty database, or the end of the key space): the nil key is taken for a log key — the first/last index is garbage or the conversion fails and the store does not open")
 		}
 	}
+	// (iii) the first entry is not passed over: between First() and the next Next() on the same iterator there is a read of
+	// the entry (Key / Value) on every path. (`if !it.First() { … }; for it.Next() { … }` copies all entries but the first.
+	// Last() followed by Prev() — "the one before the newest" — is a different idiom and is not judged.)
+	for _, v := range g.Nodes() {
+		first := hasCall(v.Node, "First")
+		if first == nil {
+			continue
+		}
+		recv := ast.Unparen(first.Fun).(*ast.SelectorExpr).X
+		sameIt := func(call *ast.CallExpr) bool {
+			se, ok := ast.Unparen(call.Fun).(*ast.SelectorExpr)
+			return ok && astx.Same(info, se.X, recv)
+		}
+		reads := func(x int) bool {
+			call := hasCall(g.V[x].Node, "Key", "Value")
+			return call != nil && sameIt(call) && x != v.ID
+		}
+		reach := g.Reach(v.ID, reads, nil)
+		bad := token.NoPos
+		for x := range g.V {
+			if !reach[x] || x == v.ID {
+				continue
+			}
+			if call := hasCall(g.V[x].Node, "Next"); call != nil && sameIt(call) && !reads(x) {
+				bad = call.Pos()
+			}
+		}
+		pos := first.Pos()
+		if bad.IsValid() {
+			pos = bad
+		}
+		r.Check(!bad.IsValid(), rule, fi.Name(), "the first entry is read before the iterator moves on", c.P.Pos(pos), "every path from First() to a Next() passes Key() / Value()",
+			"the iterator is advanced right after First() without the entry having been read: the oldest entry of the range is skipped — it is missing from the copy (snapshot, conversion, deletion) that the loop makes")
+	}
 	// (iv) a loop that runs while the iterator has entries moves the iterator on every way back to its head
 	ast.Inspect(fi.Body(), func(n ast.Node) bool {
 		fs, ok := n.(*ast.ForStmt)
@@ -1988,6 +2022,128 @@ func (c *Ctx) noRetryAfterError(rule string, fi *load.FuncInfo, match func(info 
 	one(fi.Info(), c.Graph(fi))
 	for k, lit := range funcLitsIn(fi.Body()) {
 		one(fi.Info(), c.LitGraph(fi.Name()+"$retrylit"+itoa(k), lit, fi.Info()))
+	}
+	return n
+}
+
+// delegate: fi itself when has(fi) holds; otherwise the one unexported function of fi's package that fi mentions (calls, or
+// takes as a function / method value), directly or through one more such function, for which has holds. A rule anchored in
+// an exported function follows its body when a commit moves it into a private function and keeps the exported one as a
+// wrapper. fi is returned unchanged when there is no such function or more than one.
+func (c *Ctx) delegate(fi *load.FuncInfo, has func(*load.FuncInfo) bool) *load.FuncInfo {
+	if fi == nil || fi.Body() == nil || has(fi) {
+		return fi
+	}
+	seen := map[*load.FuncInfo]bool{fi: true}
+	level := []*load.FuncInfo{fi}
+	for depth := 0; depth < 2; depth++ {
+		var next, hits []*load.FuncInfo
+		for _, f := range level {
+			info := f.Info()
+			ast.Inspect(f.Body(), func(n ast.Node) bool {
+				id, ok := n.(*ast.Ident)
+				if !ok {
+					return true
+				}
+				fn, ok := info.Uses[id].(*types.Func)
+				if !ok || fn.Exported() || fn.Pkg() == nil || fn.Pkg() != fi.Obj.Pkg() {
+					return true
+				}
+				g := c.P.FuncOf(fn)
+				if g == nil || g.Body() == nil || seen[g] {
+					return true
+				}
+				seen[g] = true
+				next = append(next, g)
+				if has(g) {
+					hits = append(hits, g)
+				}
+				return true
+			})
+		}
+		if len(hits) == 1 {
+			return hits[0]
+		}
+		if len(hits) > 1 {
+			return fi
+		}
+		level = next
+	}
+	return fi
+}
+
+// succeedsOnlyByWriting: a writer of the store reports success only after it has handed the data to LevelDB. Every return
+// of fi returns the result of a database write (Put / Write on *leveldb.DB) directly, or is dominated by one, or is an error
+// exit (a non-nil error: built on the spot, or a variable known to be set). A "nothing to do" fast path — skip the write
+// when the value looks unchanged, unset or already there — makes the caller believe something is durable that is not.
+// It returns the number of returns looked at.
+func (c *Ctx) succeedsOnlyByWriting(rule string, fi *load.FuncInfo, detail string) int {
+	if fi == nil || fi.Body() == nil {
+		return 0
+	}
+	r := c.R
+	info := fi.Info()
+	g := c.Graph(fi)
+	isDBWrite := func(call *ast.CallExpr) bool {
+		fn := astx.Callee(info, call)
+		if fn == nil || fn.Pkg() == nil || !strings.HasPrefix(fn.Pkg().Path(), pathLevelDB) {
+			return false
+		}
+		rn := astx.RecvNamed(fn)
+		return rn != nil && rn.Obj().Name() == "DB" && (fn.Name() == "Put" || fn.Name() == "Write")
+	}
+	writes := func(v *cfgx.Vertex) bool {
+		if v.Node == nil {
+			return false
+		}
+		for _, call := range astx.Calls(v.Node, false) {
+			if isDBWrite(call) {
+				return true
+			}
+		}
+		return false
+	}
+	n := 0
+	for _, rv := range g.Returns() {
+		rs := rv.Node.(*ast.ReturnStmt)
+		if len(rs.Results) == 0 {
+			continue
+		}
+		n++
+		last := ast.Unparen(rs.Results[len(rs.Results)-1])
+		ok, why := false, ""
+		switch x := last.(type) {
+		case *ast.CallExpr:
+			if isDBWrite(x) {
+				ok, why = true, "returns the result of the database write"
+			} else if t := info.TypeOf(x); t != nil && types.Identical(t, types.Universe.Lookup("error").Type()) {
+				if fn := astx.Callee(info, x); fn != nil && (fn.Pkg() != nil && (fn.Pkg().Path() == "fmt" || fn.Pkg().Path() == "errors")) {
+					ok, why = true, "an error built on the spot"
+				}
+			}
+		case *ast.Ident:
+			if !isNilIdent(info, x) {
+				for _, f := range g.FactsAt(rv.ID) {
+					if e2, isNil, isCmp := nilCompare(info, f); isCmp && !isNil {
+						if id, isID := ast.Unparen(e2).(*ast.Ident); isID && astx.Obj(info, id) == astx.Obj(info, x) {
+							ok, why = true, "error exit"
+						}
+					}
+				}
+				if !ok {
+					// the variable holds the result of the write
+					for _, d := range defsOf(info, fi.Node(), astx.Obj(info, x)) {
+						if call, isCall := ast.Unparen(d).(*ast.CallExpr); isCall && isDBWrite(call) {
+							ok, why = true, "returns the result of the database write"
+						}
+					}
+				}
+			}
+		}
+		if !ok && g.DominatedBy(rv.ID, writes) {
+			ok, why = true, "dominated by the database write"
+		}
+		r.Check(ok, rule, fi.Name(), "success is reported only after the write", c.P.Pos(rs.Pos()), why, detail)
 	}
 	return n
 }
